@@ -28,7 +28,11 @@ var errorBudgetTable = []struct {
 	{"(s1.ChordAngle).MaxPointError", []float64{7.8886090504315375e-31, 9.9920072205000003e-16}, "4.5 * dblEpsilon ; 16 * dblEpsilon * dblEpsilon"},
 	{"(s1.Interval).Expanded", []float64{4.4408920980000002e-16}, "2 * dblEpsilon ; 2 * dblEpsilon"},
 	{"(s2.Cap).AddCap", []float64{2.2204460492503131e-16}, "dblEpsilon"},
-	{"(s2.Cell).ContainsPoint", []float64{2.2204460492503131e-16}, "dblEpsilon"},
+	// D38: NOT the C++ value (dblEpsilon), which is too small. Derived: uvToST(u) rounds three times (3u, 1+3u, sqrt;
+	// 0.5* and, on the negative branch, 1- are exact), |e_s| <= 2s*2^-53, which stToUV's slope 8s/3 turns into
+	// (4|u| + 4/3)*2^-53 in u; the cell bound stToUV(i/2^30) rounds four times (s*s, -1, 1/3., *), (4|u| + 1/3)*2^-53.
+	// Sum at |u| = 1: (29/3)*2^-53. The formulas themselves are pinned by R-MIRROR `stToUV:branches-are-mirror-images`.
+	{"(s2.Cell).ContainsPoint", []float64{1.0732155904709846e-15}, "(29/3) * 2^-53 (derived, see comment)"},
 	{"(s2.Cell).RectBound", []float64{2.2204460492503131e-16, 4.4408920985006262e-16}, "s1.Angle(2 * dblEpsilon) ; s1.Angle(2 * dblEpsilon) ; poleMinLat ; -poleMinLat ; s1.Angle(dblEpsilon)"},
 	{"(s2.CellIDSnapper).levelForMaxSnapRadius", []float64{8.8817841970012523e-16}, "4 * dblEpsilon"},
 	{"(s2.CellIDSnapper).minSnapRadiusForLevel", []float64{8.8817841970012523e-16}, "4 * dblEpsilon"},
